@@ -254,11 +254,13 @@ def check_value(names, acc, do_stack=True, case=None, sep=" and "):
         doc = f"@article{{k, title = {{T and U}}, {fld} = {o}{pad(value)}{c}, year = 1999}}"
         acc.trace()
         try:
-            lib1 = bibtexparser.parse_string(doc, append_middleware=[SeparateCoAuthors(), SplitNameParts()])
+            # (the stacks as a list, a tuple or a one-shot iterator: all are the documented Iterable)
+            box = {"author": list, "editor": tuple, "translator": iter}[fld]
+            lib1 = bibtexparser.parse_string(doc, append_middleware=box([SeparateCoAuthors(), SplitNameParts()]))
             # the prepended (in-place) middlewares may rewrite lib1 while writing: keep what was parsed
             lib1_snapshot = copy.deepcopy(lib1)
-            text = bibtexparser.write_string(lib1, prepend_middleware=[MergeNameParts(), MergeCoAuthors()])
-            lib2 = bibtexparser.parse_string(text, append_middleware=[SeparateCoAuthors(), SplitNameParts()])
+            text = bibtexparser.write_string(lib1, prepend_middleware=box([MergeNameParts(), MergeCoAuthors()]))
+            lib2 = bibtexparser.parse_string(text, append_middleware=box([SeparateCoAuthors(), SplitNameParts()]))
         except Exception as e:
             acc.exception(e, case, "parse_string/write_string with name middlewares", size=len(value))
             continue
